@@ -46,9 +46,12 @@ echo "|---|$(seq 1 20 | sed 's/.*/---/' | tr '\n' '|')"
 } > $OUT
 for d in $SEEDS; do
   name=$(basename $d)
-  P=/verif/$d/patch.diff
-  [ -f /verif/$d/patch-rebased-on-9d3785a.diff ] && P=/verif/$d/patch-rebased-on-9d3785a.diff
-  if ! git -C $MX/repo apply --check $P 2>/dev/null; then echo "| $name | (patch does not apply to the current tree) |" >> $OUT; continue; fi
+  # the change as written, or a version of it rebased onto later fix commits (same change, moved context)
+  P=""
+  for cand in /verif/$d/patch.diff /verif/$d/patch-rebased-on-*.diff; do
+    [ -f "$cand" ] && git -C $MX/repo apply --check "$cand" 2>/dev/null && { P="$cand"; break; }
+  done
+  if [ -z "$P" ]; then echo "| $name | (patch does not apply to the current tree) |" >> $OUT; continue; fi
   git -C $MX/repo apply $P
   todo=$(props_for $P)
   if ! (cd $MX/harness && cargo build --release --offline >/dev/null 2>&1); then
